@@ -343,4 +343,23 @@ func runC13(c *ctx) {
 		sb.WriteByte('\n')
 		emitC13(c, 'E', sb.String())
 	}
+	// whole sessions as the C17 generator writes them (several games on one engine, sizes changing, position lines that
+	// repeat or extend one another across teinewgame, takebacks, TPS starts), plain and with bytes mutated
+	tg := &c17Gen{r: r}
+	for k := 0; k < 60*c.scale; k++ {
+		var lines []string
+		switch k % 3 {
+		case 0:
+			lines = tg.sameLineOtherSize(8)
+		case 1:
+			lines = tg.sameMoves(6)
+		default:
+			lines = tg.session(5)
+		}
+		text := strings.Join(lines, "\n") + "\n"
+		emitC13(c, 'E', text)
+		if k%2 == 0 {
+			emitC13(c, 'E', mutateBytes(r, text, teiAlpha))
+		}
+	}
 }
